@@ -78,7 +78,7 @@ def run(chk, tier, seed):
     outs, p = fc.decode(bdir, lines)
     if p.returncode != 0 or len(outs) < len(lines):
         k = max(0, len(outs) - 1)
-        chk.violation("decoder-crash:%s" % meta[min(k, len(meta) - 1)][1],
+        chk.violation("decoder-%s:%s" % ("hang" if p.returncode == -999 else "crash", meta[min(k, len(meta) - 1)][1]),
                       "h_track died at input %d (%r): rc=%s %s" % (k, meta[min(k, len(meta) - 1)], p.returncode, p.stderr[-1500:]),
                       dict(line=lines[min(k, len(lines) - 1)][:4000]))
     n_ok = min(len(lines), len(outs) - 1 if outs and outs[-1] == "" else len(outs))
